@@ -12,6 +12,7 @@
 package c02
 
 import (
+	"bytes"
 	"encoding/json"
 	"fmt"
 	"io"
@@ -81,7 +82,7 @@ const chunkSize = 24
 
 func smallLens() []int {
 	if vk.Thorough() {
-		return []int{0, 1, 2, 33, 65}
+		return []int{0, 1, 2, 33, 56}
 	}
 	return []int{0, 1, 33}
 }
@@ -97,7 +98,9 @@ func smallPaths(kind string) []string {
 func bigPaths(kind string) []string {
 	p := []string{"receive", "put", "mp1"}
 	if vk.Thorough() {
-		p = append(p, "mp3:1", "putw", "mpw1")
+		// (no socket-driven paths here: a server that answers before it has read
+		// a 16 MiB body makes the client's verdict depend on timing)
+		p = append(p, "mp3:1")
 	}
 	if selfVerifying(kind) {
 		p = append(p, "direct", "nohash")
@@ -142,28 +145,34 @@ func allGroups(specs []bspec) []*group {
 }
 
 // modesFor: which source readers are explored for a path and a variant.
-// full = thorough tier on a core backend.
-func modesFor(path string, v variant, full bool, bodyLen int) []string {
+// full = thorough tier on a core backend. bodyLen is the length of the byte
+// stream the reader delivers (the blob, or the whole multipart body, in which
+// the part's data starts at dataStart).
+func modesFor(path string, v variant, full bool, bodyLen, dataStart int) []string {
 	var m []string
 	switch path {
 	case "receive", "direct", "put", "nohash":
-		if path == "nohash" && !full && !v.Reduced {
-			return []string{"whole"}
-		}
 		if !full && !v.Reduced {
+			if path == "nohash" {
+				return []string{"whole"}
+			}
 			return []string{"whole", "byte1"}
 		}
 		m = append(m, simpleModes...)
-		m = append(m, errModes(bodyLen, true)...)
+		m = append(m, errModes(0, bodyLen, v.Reduced)...)
 	case "mp1":
 		if !full && !v.Reduced {
 			return []string{"whole", "byte1"}
 		}
 		m = append(m, simpleModes...)
-		if full {
-			m = append(m, errModes(bodyLen, true)...)
-		} else if v.Core {
-			m = append(m, errModes(bodyLen, false)...) // every offset of the multipart body
+		switch {
+		case full && v.Reduced:
+			m = append(m, errModes(0, bodyLen, true)...)
+		case full:
+			// from just before the part's data to the end of the body
+			m = append(m, errModes(max(0, dataStart-4), bodyLen, false)...)
+		case v.Core:
+			m = append(m, errModes(0, bodyLen, false)...) // every offset of the multipart body
 		}
 	case "mp3:1":
 		if full || v.Reduced {
@@ -172,7 +181,7 @@ func modesFor(path string, v variant, full bool, bodyLen int) []string {
 			m = []string{"whole"}
 		}
 		if full && v.Core {
-			m = append(m, errModes(bodyLen, false)...)
+			m = append(m, errModes(0, bodyLen, false)...)
 		}
 	case "mp3:0", "mp3:2":
 		if full {
@@ -220,11 +229,14 @@ func (gr *group) cases() []*tcase {
 			if !ok {
 				continue
 			}
-			bodyLen := len(v.Data)
+			bodyLen, dataStart := len(v.Data), 0
 			if isMP(gr.Path) {
-				bodyLen = len(mpBody(mpParts(gr.Path, R, v.Data)))
+				body := mpBody(mpParts(gr.Path, R, v.Data))
+				bodyLen = len(body)
+				h := bytes.Index(body, []byte(`name="`+R.String()+`"`))
+				dataStart = h + bytes.Index(body[h:], []byte("\r\n\r\n")) + 4
 			}
-			for _, mode := range modesFor(gr.Path, v, full, bodyLen) {
+			for _, mode := range modesFor(gr.Path, v, full, bodyLen, dataStart) {
 				out = append(out, &tcase{Scenario: "small", Tier: vk.Tier(), Backend: gr.bs.name, Path: gr.Path, TLen: gr.TLen, Pre: gr.Pre, Chunk: gr.Chunk,
 					Off: v.Name, RefKind: kind, Ref: R.String(), Mode: mode, T: T, O: v.Data, R: R, matchFull: refMatches(R, v.Data)})
 			}
@@ -330,6 +342,10 @@ func (r *runner) runGroup(gr *group) error {
 	}
 	dirtyN := 0
 	return execGroup(gr, cases, -1, count, func(c *tcase, p *problem) bool {
+		if strings.HasPrefix(p.class, "engine:") {
+			r.res.EngineError("%s", p.detail)
+			return false
+		}
 		sig := signature(c, p.class)
 		if r.book.note(sig) {
 			r.confirm(gr, cases, c, p, sig)
@@ -431,7 +447,7 @@ func TestCheck(t *testing.T) {
 	}
 	debug.SetGCPercent(300) // the big scenario churns 16 MiB buffers
 	res := vk.New("C02")
-	res.Rule = "input-shape enumeration: every (ref, offered bytes, source reader) of the bounded grammar — offered = true content T (len 0,1,33 [thorough +2,65]; 16MiB-1,16MiB,16MiB+1), every truncation, every single-bit flip, one-byte extensions, every adjacent transposition, reversal; refs = sha1/sha224/sha256 of T and of the offered bytes, a sha224-named sha256 digest, md5-/sha512-/foo-0; readers = whole, no-length, 1-byte reads, data+EOF, error after every k (error alone / with the last bytes) — through every ingest path (Receive, ReceiveNoHash, direct ReceiveBlob of self-verifying stores, PUT and multipart handlers in-process and over a socket, 3-part batches with the case at each position) on every backend, from a prestate where the ref is absent and one where it already holds the true content. A case is one real upload plus Fetch/Stat/Enumerate/lower-store/BlobHub observation; it is counted distinct/non-trivial by (path family, backend kind, oracle verdict, observed result class, ref-present-before). states = worlds built + uploads that added a blob; transitions = calls into perkeep code"
+	res.Rule = "input-shape enumeration: every (ref, offered bytes, source reader) of the bounded grammar — offered = true content T (len 0,1,33 [thorough +2,56]; 16MiB-1,16MiB,16MiB+1), every truncation, every single-bit flip, one-byte extensions, every adjacent transposition, reversal; refs = sha1/sha224/sha256 of T and of the offered bytes, a sha224-named sha256 digest, md5-/sha512-/foo-0; readers = whole, no-length, 1-byte reads, data+EOF, error after every k (error alone / with the last bytes) — through every ingest path (Receive, ReceiveNoHash, direct ReceiveBlob of self-verifying stores, PUT and multipart handlers in-process and over a socket, 3-part batches with the case at each position) on every backend, from a prestate where the ref is absent and one where it already holds the true content. A case is one real upload plus Fetch/Stat/Enumerate/lower-store/BlobHub observation; it is counted distinct/non-trivial by (path family, backend kind, oracle verdict, observed result class, ref-present-before). states = worlds built + uploads that added a blob; transitions = calls into perkeep code"
 	res.Assumptions = []string{
 		"Go's crypto/sha1, crypto/sha256 and the harness leaf store hs.Mem are correct (the oracle hashes with the standard library only)",
 		"a directly called store is required to re-verify the digest but not the 16 MiB cap (interface.go assigns the cap to the entry points)",
@@ -499,7 +515,7 @@ func TestCheck(t *testing.T) {
 func boundText(name string) string {
 	tier := "quick: T lengths {0,1,33}, 8 backends; error-after-k readers on the reduced variant set"
 	if vk.Thorough() {
-		tier = "thorough: T lengths {0,1,2,33,65}, full product incl. error-after-every-k on 8 core backends, reduced product on all other writable bk configurations"
+		tier = "thorough: T lengths {0,1,2,33,56}, full product incl. error-after-every-k on 8 core backends, reduced product on all other writable bk configurations"
 	}
 	if len(name) >= 3 && name[:3] == "big" {
 		return "contents of 16MiB-1, 16MiB, 16MiB+1 bytes x {T, first/middle/last bit flipped, 1 byte shorter, 1 byte longer} x refs {sha224 of T, of the offered bytes, of the 16MiB head; sha1/sha256/foo-0 for T} on the 8 core backends"
